@@ -20,6 +20,7 @@ import (
 
 	"github.com/dominant-strategies/go-quai/common"
 	"github.com/dominant-strategies/go-quai/consensus/kawpow"
+	"github.com/dominant-strategies/go-quai/consensus/progpow"
 	"github.com/dominant-strategies/go-quai/core/types"
 	"github.com/dominant-strategies/go-quai/log"
 	"github.com/dominant-strategies/go-quai/params"
@@ -254,6 +255,42 @@ func runC08(seed uint64, n int, outDir string, replay string) {
 					o.Violate("c08-kawpow-result-not-function-of-nonce", fmt.Sprintf("height %d nonce %#x (after evaluating nonce %#x): ComputePowLight gives pow %x, the share verifier %x (err %v)", height, nonce, base, pow.Bytes()[:6], rpow.Bytes()[:6], err))
 				}
 				o.Count("kawpow-evaluations")
+			}
+		}
+	}()
+	// (4) the verdict on a seal is a function of the header: evaluating it again - on the same object, whose memoised
+	// digest fields the first evaluation filled, or on a copy - gives the same verdict.  ProgPoW and KAWPOW carry a mix
+	// digest in the header that must equal the computed one.
+	func() {
+		defer func() {
+			if p := recover(); p != nil {
+				o.Violate("c08-panic", fmt.Sprintf("progpow: panic: %v at %s", p, stackTop()))
+			}
+		}()
+		eng := progpow.New(params.PowConfig{PowMode: params.ModeTest}, nil, false, log.Global)
+		rc := r.Fork()
+		for i := 0; i < 3; i++ {
+			wh := types.NewWorkObjectHeader(cHash(rc), cHash(rc), big.NewInt(int64(1+rc.Intn(1000))), big.NewInt(100), big.NewInt(int64(rc.Intn(100))), cHash(rc), types.EncodeNonce(rc.U64()), 0, 1, common.Location{0, 0}, common.Address{}, nil, nil,
+				types.NewPowShareDiffAndCount(nil, nil, nil), types.NewPowShareDiffAndCount(nil, nil, nil), nil, nil, nil)
+			mix, pow := eng.ComputePowLight(types.CopyWorkObjectHeader(wh))
+			good := types.CopyWorkObjectHeader(wh)
+			good.SetMixHash(mix)
+			bad := types.CopyWorkObjectHeader(wh)
+			wrong := mix
+			wrong[rc.Intn(32)] ^= byte(1 << uint(rc.Intn(8)))
+			bad.SetMixHash(wrong)
+			for round := 0; round < 3; round++ {
+				g, b := good, bad
+				if round == 2 {
+					g, b = types.CopyWorkObjectHeader(good), types.CopyWorkObjectHeader(bad)
+				}
+				if hs, err := eng.ComputePowHash(g); err != nil || hs != pow {
+					o.Violate("c08-seal-verdict-changes-on-repeat", fmt.Sprintf("progpow: evaluation %d of a header with the right mix digest: pow %x err %v, first computed %x", round+1, hs.Bytes()[:6], err, pow.Bytes()[:6]))
+				}
+				if _, err := eng.ComputePowHash(b); err == nil {
+					o.Violate("c08-seal-verdict-changes-on-repeat", fmt.Sprintf("progpow: evaluation %d of a header whose mix digest is wrong is accepted (the first evaluation rejected it)", round+1))
+				}
+				o.Count("progpow-evaluations")
 			}
 		}
 	}()
